@@ -7,3 +7,8 @@ import XPathV.Theorems.C08
 #print axioms XPathV.Theorems.C08.number_to_string_spec
 #print axioms XPathV.Theorems.C08.count_spec
 #print axioms XPathV.Theorems.C08.numeric_sources_ok
+#print axioms XPathV.Theorems.C08.C08_arith_trees
+#print axioms XPathV.Theorems.C08.C08_main
+#print axioms XPathV.Theorems.C08.C08_evaluate
+#print axioms XPathV.Theorems.C08.C08_same_operation
+#print axioms XPathV.Theorems.C08.C08_string_of_number
